@@ -78,8 +78,15 @@ pub fn colour_space(net: &Net, rng: &mut Rng, max_bits_exhaustive: usize, sample
             colours.push((0..bits.len()).map(|i| (c >> i) & 1 == 1).collect());
         }
     } else {
-        for _ in 0..samples {
-            colours.push((0..bits.len()).map(|_| rng.coin()).collect());
+        // sampled colours must be pairwise distinct: explicit sets are indexed by colour position
+        let mut seen = std::collections::HashSet::new();
+        let mut attempts = 0;
+        while colours.len() < samples && attempts < samples * 20 {
+            attempts += 1;
+            let c: Vec<bool> = (0..bits.len()).map(|_| rng.coin()).collect();
+            if seen.insert(c.clone()) {
+                colours.push(c);
+            }
         }
     }
     let valid = colours.iter().map(|c: &Vec<bool>| net.is_valid(&interp_of(net, &bits, c))).collect();
